@@ -1,4 +1,5 @@
 import Pcore.Proofs.LoaderSeq
+import Pcore.Proofs.LoaderTS
 /-!
 # C12 — Loader resolution: parents first, bindings are write-once, misses are not sticky
 
@@ -31,7 +32,14 @@ Full statement / proved / missing
   ancestor that satisfy the predicate (for well-formed states: unique keys per map, `WF`, an invariant of every
   history: `C12_wf_run`).                                                                                          proved
 * `C12_assertion_fault_before_fix` — the pre-fix `SetEntry` (non-Type over a bound Type) is witnessed to crash.
-* missing / outside the model: the type-set, dependency and file-based loaders (C15 covers the latter two);
+* type-set loaders as leaves (`Model/LoaderTS.lean`, `stepT`): `C12_ts_load` — a lookup through the leaf answers the
+  specification `tsResolve` (ancestors outermost first, else the member the name denotes, else the name relative to the
+  type set) provided no member name it reaches is also bound along the chain; without that hypothesis the statement is
+  false (`C12_ts_member_shadows`, known finding C12-typeset-member-before-ancestors: the type set is asked first);
+  `C12_ts_has` — HasEntry is `tsResolve ≠ none`, unconditionally; `C12_ts_lookups_pure` — lookups through the leaf change
+  no binding; `C12_ts_define` — a definition through the leaf is the definition in its parent (so C12_writeonce /
+  C12_redefine apply there); `C12_ts_other` — every other loader behaves as without type-set leaves.              proved
+* missing / outside the model: type-set loaders with children or references, the dependency and file-based loaders (C15);
   `strings.ToLower` beyond ASCII; the static loader level (assumed disjoint from the names used, checked by the
   harness per line).  Tie: differential execution of whole histories (harness/c12).
 -/
@@ -237,6 +245,66 @@ example : eqFold ⟨runtimeAuthority, "type", "::M::a"⟩ ⟨runtimeAuthority, "
 -- C12_discover: both loaders' bindings, the shadowed name once, the placeholder-free answer sorted
 example : (step sample (.discover 2 fun _ => true)).2 = .keys [canon na, canon nb] ∧
     (step sample (.discover 0 fun _ => true)).2 = .keys [] := by decide +kernel
+
+/-! ### type-set loaders as leaves -/
+
+-- (keeps the unifier from evaluating the string functions inside `segsOf n` for a variable `n`)
+attribute [local irreducible] segsOf
+
+/-- a lookup through a type-set leaf answers the specification, provided no member name it reaches is also bound along
+    the chain (and no name it can take relative has a cached miss in the leaf — see `TSReach`) -/
+theorem C12_ts_load (tss : List (Option TypeSet)) (s : Sys) (l : Nat) (t : TypeSet) (n : Name)
+    (ht : tsOf tss l = some t) (ha : n.auth = runtimeAuthority) (hne : segsOf n ≠ [])
+    (h : TSReach s l t n (segsOf n)) :
+    (stepT tss s (.load l n)).2 = ansOf (tsResolve s l t n (segsOf n)) := by
+  have hs := tsLoadEntry_spec s l t n (segsOf n) hne h
+  rw [stepT_load tss s l t n ht ha]
+  exact congrArg ansOf hs
+
+/-- HasEntry through the leaf: the name resolves — with or without shadowing -/
+theorem C12_ts_has (tss : List (Option TypeSet)) (s : Sys) (l : Nat) (t : TypeSet) (n : Name) (ht : tsOf tss l = some t) :
+    stepT tss s (.has l n) = (s, .bool (tsResolve s l t n (segsOf n)).isSome) := by
+  rw [stepT_has tss s l t n ht, tsHas_spec]
+
+/-- lookups and queries through the leaf change no binding of any loader -/
+theorem C12_ts_lookups_pure (tss : List (Option TypeSet)) (s : Sys) (l : Nat) (t : TypeSet) (n : Name)
+    (ht : tsOf tss l = some t) (l' : Nat) (k' : Key) :
+    bound (stepT tss s (.load l n)).1 l' k' = bound s l' k' ∧ (stepT tss s (.has l n)).1 = s := by
+  refine ⟨?_, by rw [stepT_has tss s l t n ht]⟩
+  by_cases ha : n.auth = runtimeAuthority
+  · rw [stepT_load tss s l t n ht ha]; exact tsLoadEntry_bound s l t n _ l' k'
+  · rw [stepT_load_foreign tss s l t n ht ha]
+
+/-- a definition through the leaf is the definition in its parent -/
+theorem C12_ts_define (tss : List (Option TypeSet)) (s : Sys) (l p : Nat) (t : TypeSet) (n : Name) (v : V)
+    (ht : tsOf tss l = some t) (hp : s.ps.getD l none = some p) :
+    stepT tss s (.define l n v) = step s (.define p n v) :=
+  stepT_define tss s l p t n v ht hp
+
+/-- every loader that is not a type-set leaf behaves exactly as in a hierarchy without them -/
+theorem C12_ts_other (tss : List (Option TypeSet)) (s : Sys) (op : Op) (h : tsOf tss op.loader = none) :
+    stepT tss s op = step s op := stepT_plain tss s op h
+
+def demoTS : TypeSet := { name := "my", members := [("foo", .al "My::Foo" 1), ("bar", .al "My::Bar" 2)] }
+def demoTss : List (Option TypeSet) := [none, none, some demoTS]
+def nMyFoo : Name := ⟨runtimeAuthority, "type", "My::Foo"⟩
+def nFoo : Name := ⟨runtimeAuthority, "type", "Foo"⟩
+/-- the history of the seeded change C12-s2: a miss through the ancestor, then the lookup through the leaf -/
+def tsSample : Sys := (runT demoTss (Sys.init [none, some 0, some 1]) [.load 0 nMyFoo]).1
+
+-- non-vacuity of C12_ts_load: after the miss in the ancestor (its miss marker is in loader 0) the hypotheses hold and the
+-- lookup through the leaf still finds the member by its qualified path
+example : tsOf demoTss 2 = some demoTS ∧ lk (canon nMyFoo) (tsSample.ents 0) = some none ∧
+    (stepT demoTss tsSample (.load 2 nMyFoo)).2 = .found (.al "My::Foo" 1) ∧
+    tsResolve tsSample 2 demoTS nMyFoo (segsOf nMyFoo) = some (.al "My::Foo" 1) := by decide +kernel
+example : segsOf nMyFoo = ["my", "foo"] ∧ TSReach tsSample 2 demoTS nMyFoo (segsOf nMyFoo) := by decide +kernel
+
+/-- the hypothesis is needed (known finding C12-typeset-member-before-ancestors): with `Foo` bound in the root, the lookup
+    through the leaf answers the member, the specification the root's binding -/
+theorem C12_ts_member_shadows :
+    let s := (runT demoTss (Sys.init [none, some 0, some 1]) [.define 0 nFoo (.ty 7)]).1
+    (stepT demoTss s (.load 2 nFoo)).2 = .found (.al "My::Foo" 1) ∧
+    tsResolve s 2 demoTS nFoo (segsOf nFoo) = some (.ty 7) := by decide +kernel
 
 /-! ### the defects that were repaired, as witnesses on the pre-fix definitions -/
 
